@@ -8,7 +8,7 @@ RULE = ("generator bodies as operation lists over {Value(v), await a constant fu
         "awaits, no Values, empty), optionally consumed through an outer async generator; consumers: list_of_generator, repeated take_first(n) for "
         "0 <= n <= len+2 on one generator (position-pointer model + bound on how far the body has advanced), manual next() misuse before the previous task "
         "is computed, and advancing after exhaustion. non-trivial = the body has an await after its last Value, or a take_first with n = 0 or n > remaining, "
-        "or >= 2 take_first calls on one generator; distinct = distinct case JSON")
+        "or >= 2 take_first calls on one generator; distinct = distinct case JSON Mode several: generator objects of one function alive together, exhausted ones kept while new ones are created.")
 ASSUMPTIONS = ["bodies that raise are not generated (the property speaks of Values and awaits)"]
 
 
